@@ -181,6 +181,8 @@ def check_property(prop, tier, seed, relock=False):
         if not r['error'] and not r['unsupported'] and r['feasible_paths'] == 0:
             checker_errors.append(f"{r['key']}: vacuous - no feasible path reaches an exit (contradictory requires?)")
         for o in r['obligations']:
+            if '@' in o['key'] and prop not in o['key'].rsplit('@', 1)[1].split(','):
+                continue        # a clause tagged  name@Cxx[,Cyy]  belongs to those properties only
             total += 1
             a = agg.setdefault(o['key'], {'key': o['key'], 'function': r['key'], 'instances': 0, 'status': 'discharged', 'aux': o['aux'], 'seconds': 0.0,
                                           'worst': None, 'solvers': {}})
